@@ -16,6 +16,7 @@ REQUIRED_THEOREMS = [
     'assocIn_eq_assocPath', 'startsWith_iff', 'getIn_updateIn', 'walk_converse_fails',
 ]
 ANCHORS = [
+    ('vivarium/core/store.py', ['Store.add_node']),
     ('vivarium/library/topology.py', ['get_in', 'delete_in', 'assoc_path', 'update_in',
                                       'paths_to_dict', 'dict_to_paths', 'normalize_path']),
     ('vivarium/library/dict_utils.py', ['deep_merge']),
@@ -117,11 +118,29 @@ def generate(rng, n, tier):
                           'a': gen_path(rng, 4), 's': gen_path(rng, 3)})
         else:
             t = gen_tree(rng, rng.choice([2, 3, 4]), store_like=True)
+            case = {'kind': 'store'}
+            if rng.random() < 0.3:
+                # graft a fresh node with Store.add_node at a relative path of 1–3 segments
+                import copy
+                t0 = copy.deepcopy(t)
+                at = rng.choice(all_paths(t))
+                g = [rng.choice(KEYS + ['w']) for _ in range(rng.randrange(0, 3))] + ['new']
+                node = t
+                for k in at:
+                    node = node[k]
+                for k in g:
+                    node = node.setdefault(k, {})
+                case.update({'t0': enc(t0), 'graft': {'at': at, 'path': g}})
             nodes = all_paths(t)
             a = rng.choice(nodes)
             b = rng.choice(nodes)
+            if 'graft' in case and rng.random() < 0.6:
+                b = case['graft']['at'] + case['graft']['path']
+                if rng.random() < 0.5:
+                    a, b = b, a
             rel = gen_rel(rng, t, a)
-            cases.append({'kind': 'store', 't': enc(t), 'a': a, 'b': b, 'rel': rel})
+            case.update({'t': enc(t), 'a': a, 'b': b, 'rel': rel})
+            cases.append(case)
     if tier == 'thorough':
         cases.extend(exhaustive_family())
     return cases
@@ -184,6 +203,9 @@ def corpus():
          'rel': ['..', '..', 'c']},
         {'kind': 'store', 't': enc({'a': {}}), 'a': ['a'], 'b': [], 'rel': ['zz', '..']},
         {'kind': 'store', 't': enc({'a': {}}), 'a': [], 'b': ['a'], 'rel': ['..']},
+        {'kind': 'store', 't0': enc({'a': {'b': {}}, 'c': {}}), 'graft': {'at': ['a'], 'path': ['b', 'w', 'new']},
+         't': enc({'a': {'b': {'w': {'new': {}}}}, 'c': {}}), 'a': ['a', 'b', 'w', 'new'], 'b': ['c'],
+         'rel': ['..', '..', '..', '..', 'c']},
     ]
 
 
@@ -285,7 +307,11 @@ def run_impl(case):
         return {'obs': obs, 'fails': fails}
     if kind == 'store':
         t = dec(case['t'])
-        root = _build_store(S, t)
+        if 'graft' in case:
+            root = _build_store(S, dec(case['t0']))
+            root.get_path(tuple(case['graft']['at'])).add_node(tuple(case['graft']['path']), S.Store({}))
+        else:
+            root = _build_store(S, t)
         a = tuple(case['a'])
         b = tuple(case['b'])
         rel = tuple(case['rel'])
@@ -302,7 +328,7 @@ def run_impl(case):
         obs['pathFor'] = list(A.path_for())
 
         def est():
-            root2 = _build_store(S, t)
+            root2 = _build_store(S, t)     # (the shape after the graft; node links are rebuilt)
             node = root2.get_path(a)._establish_path(rel, {})
             return [enc(_shape(root2)), list(node.path_for())]
         obs['establish'] = _try(est)
